@@ -27,7 +27,8 @@ import common
 import proofs
 from common import hx
 
-FILES = ["Model_diag.v", "Proofs_diag.v", "Model_diag_session.v", "Proofs_diag_session.v", "Entry_diag.v", "Extract_diag.v"]
+FILES = ["Model_diag.v", "Proofs_diag.v", "gen/Gen_diag.v", "Proofs_diag_inst.v", "Proofs_diag_more.v", "Proofs_diag_angle.v", "Model_diag_session.v", "Proofs_diag_session.v", "Model_diag_fse_session.v", "Proofs_diag_fse_session.v",
+         "Entry_diag.v", "Extract_diag.v"]
 PROP = "Properties/C13.v"
 GROUP = "diag"
 AXES = "abc"
@@ -83,8 +84,9 @@ def sym_from_lower(S):
     return L + L.T - np.diag(np.diag(S))
 
 
-def spec_residuals(call):
-    """eig_spec / vals_spec residuals of one recorded LAPACK call; list of failures."""
+def spec_residuals(call, SPEC_TOL=SPEC_TOL):
+    """eig_spec / vals_spec residuals of one recorded LAPACK call; list of failures.  (float32 input means the
+    single-precision LAPACK routine: the caller passes a tolerance at that precision.)"""
     name, A, args, kw, out = call
     fails = []
     if args or any(k not in ("driver",) for k in kw):
@@ -198,25 +200,169 @@ def gen_textures(chk, tier):
     return out
 
 
+F_KINDS = ("random", "near_singular", "shear", "stretch", "sym_spd", "sym_indefinite", "sym_negdef", "sym_detneg",
+           "diagonal", "stretch_halfturn", "minus_identity", "rotation")
+
+
+def exact_sym(U, lam):
+    """U diag(lam) U^T made EXACTLY symmetric (bitwise S == S.T)"""
+    S = U @ np.diag(np.asarray(lam, dtype=float)) @ U.T
+    return (S + S.T) / 2
+
+
+def halfturn(U, k):
+    """half-turn about column k of the orthogonal U (exactly symmetric)"""
+    d = -np.ones(3)
+    d[k] = 1.0
+    return exact_sym(U, d)
+
+
 def gen_F(chk, tier):
+    """deformation gradients with a partner rotation Q.  Besides generic F: EXACTLY symmetric F (positive definite,
+    indefinite, negative definite, negative determinant), diagonal F with signs, a stretch combined with a half-turn
+    about one of its principal axes (F = V.Q = Q.V is symmetric and indefinite; the partner Q is that half-turn, so
+    F.Q and Q.F are the symmetric positive definite V), -I, pure rotations."""
     rng = np.random.default_rng(chk.seed + 7)
-    n = 40 if tier == "quick" else 400
+    n = 4 * len(F_KINDS) if tier == "quick" else 40 * len(F_KINDS)
     out = []
     for i in range(n):
-        kind = ("random", "near_singular", "shear", "stretch")[i % 4]
+        kind = F_KINDS[i % len(F_KINDS)]
+        rep = i // len(F_KINDS)
+        Q = haar(rng)
+        U = haar(rng) if rep % 2 else np.eye(3)          # principal axes: generic / the coordinate axes
+        s = np.sort(np.exp(rng.normal(0, 0.7, 3)))[::-1] * np.array([1.5, 1.0, 0.6])   # distinct stretches, s0 largest
         if kind == "random":
             F = rng.normal(0, 1, (3, 3))
         elif kind == "near_singular":
-            U, V = haar(rng), haar(rng)
-            F = U @ np.diag([rng.uniform(0.5, 3), rng.uniform(1e-3, 0.5), 10.0 ** rng.uniform(-9, -3)]) @ V.T
+            V = haar(rng)
+            F = haar(rng) @ np.diag([rng.uniform(0.5, 3), rng.uniform(1e-3, 0.5), 10.0 ** rng.uniform(-9, -3)]) @ V.T
         elif kind == "shear":
             F = np.eye(3)
             F[1, 0] = rng.uniform(0, 8)
-        else:
-            U = haar(rng)
-            F = U @ np.diag(np.exp(rng.normal(0, 0.7, 3))) @ U.T
-        out.append(dict(kind=kind, F=F, Q=haar(rng)))
+        elif kind == "stretch":
+            W = haar(rng)
+            F = W @ np.diag(np.exp(rng.normal(0, 0.7, 3))) @ W.T
+        elif kind == "sym_spd":
+            F = exact_sym(U, s)
+        elif kind == "sym_indefinite":      # det > 0, the eigenvalue of largest magnitude is negative
+            F = exact_sym(U, [-s[0], -s[1], s[2]])
+        elif kind == "sym_negdef":
+            F = exact_sym(U, -s)
+        elif kind == "sym_detneg":          # a mirror combined with a stretch
+            F = exact_sym(U, [-s[0], s[1], s[2]] if rep % 4 < 2 else [s[0], s[1], -s[2]])
+        elif kind == "diagonal":
+            sg = np.array([(-1.0, -1.0, 1.0), (1.0, -1.0, -1.0), (-1.0, 1.0, -1.0), (1.0, 1.0, 1.0)][rep % 4])
+            F = np.diag(np.array([2.0, 1.0, 0.5])[rng.permutation(3)] * sg)
+            Q = np.diag(sg)                 # the half-turn that undoes the signs
+        elif kind == "stretch_halfturn":    # F = V.Q with Q a half-turn about a principal axis other than the long one
+            k = 1 + rep % 2
+            Q = halfturn(U, k)
+            d = -np.ones(3)
+            d[k] = 1.0
+            F = exact_sym(U, s * d)
+        elif kind == "minus_identity":
+            F = -np.eye(3) if rep % 2 == 0 else exact_sym(U, [-1.0, -1.0, -1.0])
+        else:                               # rotation (incl. exact half-turns: symmetric, eigenvalues 1, -1, -1)
+            F = halfturn(U, rep % 3) if rep % 2 == 0 else haar(rng)
+        out.append(dict(kind=kind, F=F, Q=Q))
     return out
+
+
+def gen_angles(chk, tier):
+    """(vector, axis[, plane normal]) for diagnostics.smallest_angle (the COMPILED numba kernel is called)"""
+    rng = np.random.default_rng(chk.seed + 17)
+    e = np.eye(3)
+    cases = []
+
+    def add(kind, v, a, p=None):
+        cases.append(dict(kind=kind, v=np.array(v, dtype=float), a=np.array(a, dtype=float),
+                          p=None if p is None else np.array(p, dtype=float)))
+
+    for i in range(3):
+        for j in range(3):
+            for sg in (1.0, -1.0):
+                add("basis", e[i], sg * e[j])
+                add("basis+plane", e[i] + e[(i + 1) % 3], sg * e[j], e[(i + 1) % 3])
+    r2 = float(np.sqrt(2))
+    add("doctest", [1, 0, 0], [r2, r2, 0]); add("doctest", [1, 0, 0], [-r2, r2, 0])
+    add("zero-vector", [0, 0, 0], [1, 0, 0]); add("zero-axis", [1, 0, 0], [0, 0, 0]); add("zero-both", [0, 0, 0], [0, 0, 0])
+    add("vector-along-normal", [0, 0, 2], [1, 0, 0], [0, 0, 1]); add("zero-axis+plane", [1, 2, 3], [0, 0, 0], [0, 0, 1])
+    add("negative-zero", [-0.0, 0.0, -0.0], [1, 0, 0])
+
+    def unit():
+        x = rng.normal(0, 1, 3)
+        return x / np.linalg.norm(x)
+
+    for k in range(48 if tier == "quick" else 480):
+        u, w = unit(), unit()
+        kind = ("unit", "scaled", "near-parallel", "near-antiparallel", "near-orthogonal", "parallel-scaled", "plane", "plane-non-unit-normal")[k % 8]
+        p = None
+        if kind == "unit":
+            v, a = u, w
+        elif kind == "scaled":
+            v, a = 3.7 * u, 0.01 * w
+        elif kind == "near-parallel":
+            v, a = u, u + 10.0 ** rng.uniform(-12, -4) * w
+        elif kind == "near-antiparallel":
+            v, a = u, -u + 10.0 ** rng.uniform(-12, -4) * w
+        elif kind == "near-orthogonal":
+            t = np.cross(u, w)
+            v, a = u, t / np.linalg.norm(t) + 10.0 ** rng.uniform(-14, -6) * u
+        elif kind == "parallel-scaled":      # |cos| can exceed 1 by rounding: the clip is active
+            v, a = rng.uniform(0.1, 9) * u, (-1) ** k * rng.uniform(0.1, 9) * u
+        elif kind == "plane":
+            v, a, p = u * rng.uniform(0.5, 2), w, unit()
+        else:
+            v, a, p = u, w, unit() * rng.uniform(0.2, 3)
+        add(kind, v, a, p)
+        add(kind + ":axis-reversed", v, -a, p)
+        if k % 3 == 0:
+            add(kind + ":vector-reversed", -v, a, p)
+    return cases
+
+
+def angle_rtol(x, ulps=64):
+    """relative tolerance (of max(1, x)) for an angle x in degrees obtained as arccos(c): c carries a few ulps of rounding
+    (the compiled kernel uses fastmath, the model plain left-to-right arithmetic) and d arccos / dc = 1 / sin(theta), unbounded
+    at theta = 0 where the error is sqrt(2 ulps eps) instead"""
+    eps = ulps * 2.220446049250313e-16
+    s = abs(math.sin(math.radians(x)))
+    tol = math.degrees(min(math.sqrt(2 * eps), eps / max(s, 1e-300))) + 1e-10
+    return tol / max(1.0, abs(x))
+
+
+def angle_call(dg, c):
+    f64 = lambda x: np.ascontiguousarray(x, dtype=np.float64)   # noqa: E731
+    try:
+        x = dg.smallest_angle(f64(c["v"]), f64(c["a"])) if c["p"] is None else dg.smallest_angle(f64(c["v"]), f64(c["a"]), f64(c["p"]))
+        return ("OK", float(x))
+    except Exception as e:  # noqa: BLE001
+        return ("ERR", common.exc_code(e))
+
+
+def oracle_angle(dg, c):
+    """smallest_angle read directly: in [0, 90]; the angle whose cosine is |w.a| / (|w||a|), w = the (projected) vector;
+    ZeroDivisionError exactly when w or the axis is the zero vector; unchanged when the axis or the vector is reversed"""
+    fails = []
+    v, a, p = c["v"], c["a"], c["p"]
+    w = v if p is None else v - p * np.dot(v, p)
+    r = angle_call(dg, c)
+    d = np.linalg.norm(w) * np.linalg.norm(a)
+    if d == 0:
+        return [] if r == ("ERR", "DivZero") else [f"zero (projected) vector or axis: expected ZeroDivisionError, got {r}"]
+    if r[0] != "OK":
+        return [f"raised {r[1]}"]
+    x = r[1]
+    if not (-1e-9 <= x <= 90 + 1e-9):
+        fails.append(f"angle {x!r} outside [0, 90]")
+    ref = float(np.rad2deg(np.arccos(min(1.0, abs(np.dot(w, a)) / d))))
+    if abs(x - ref) > 1e-5:
+        fails.append(f"angle {x!r} but arccos(|w.a| / (|w||a|)) = {ref!r} degrees")
+    for what, c2 in (("axis", dict(c, a=-a)), ("vector", dict(c, v=-v))):
+        r2 = angle_call(dg, c2)
+        if r2[0] != "OK" or abs(r2[1] - x) > 1e-6:
+            fails.append(f"angle changes when the {what} is reversed: {x!r} -> {r2[1]!r}")
+    return fails
 
 
 # --------------------------------------------------------------------------
@@ -366,6 +512,7 @@ def exec_session(dg, sess, rec=None):
     rviews = [b[::-1] for b in bufs]
     fns = {"pgr": dg.symmetry_pgr, "bingham": dg.bingham_average, "coaxial": dg.coaxial_index}
     events = []
+    kept = []
 
     def run1(f, *a, **kw):
         if rec is not None:
@@ -401,12 +548,19 @@ def exec_session(dg, sess, rec=None):
                     r[1][...] = 7.0     # the caller owns the result
                 except ValueError:
                     pass
+            elif r[0] == "OK" and isinstance(r[1], np.ndarray):
+                kept.append((i, r[1], np.array(r[1], copy=True)))    # must still hold these values at the end of the history
             modified = not np.array_equal(np.array(arg, dtype=float), contents, equal_nan=True)
             fresh_arg = np.array(np.asarray(arg), copy=True)
             f = run1(fns[op], fresh_arg, **kw)
             fresh = (f[0], np.array(f[1], dtype=float, copy=True) if f[0] == "OK" else f[1])
             events.append(dict(step=i, op=op, b=st["b"], axis=st["axis"], axis2=st.get("axis2"), via=via,
                                contents=contents, res=res, calls=r[2], fresh=fresh, fresh_calls=f[2], modified=modified))
+    for i, obj, snap in kept:     # a result handed out earlier is the caller's: later calls / updates must not change it
+        if not np.array_equal(obj, snap, equal_nan=True):
+            for e in events:
+                if e["step"] == i:
+                    e["result_changed_later"] = (snap.tolist(), np.array(obj).tolist())
     return events
 
 
@@ -468,6 +622,281 @@ def sess_from_json(i):
 
 
 # --------------------------------------------------------------------------
+# finite_strain call sequences on live deformation-gradient objects (Model_diag_fse_session.v)
+# --------------------------------------------------------------------------
+FSE_FAMILIES = ("update-chain", "rotations-only", "symmetric-halfturn", "two-objects", "views", "random-walk",
+                "float32", "fortran", "strided")
+FSE_CODE = {"set": 0, "right": 1, "left": 2, "scale": 3, "transp": 4, "copy": 5, "strain": 6}
+
+
+def build_fse_session(rng, family, k):
+    cases = gen_F_list(rng)
+    c0 = cases[k % len(cases)]
+    nb = 2 if family == "two-objects" else 1
+    init = [c0["F"]] + ([cases[(k + 5) % len(cases)]["F"]] if nb == 2 else [])
+    steps = []
+
+    def call(b=0, via="same", scribble=None):
+        steps.append(dict(op="strain", b=b, via=via, scribble=bool(len(steps) % 2) if scribble is None else scribble))
+
+    def upd(kind, b=0, **kw):
+        if kind in ("right", "left"):
+            steps.append(dict(op=kind, b=b, Q=kw.get("Q", haar(rng))))
+        elif kind == "scale":
+            steps.append(dict(op="scale", b=b, c=float(kw.get("c", rng.uniform(0.3, 3)))))
+        elif kind == "set":
+            steps.append(dict(op="set", b=b, G=kw.get("G", cases[int(rng.integers(len(cases)))]["F"])))
+        elif kind == "transp":
+            steps.append(dict(op="transp", b=b))
+        else:
+            steps.append(dict(op="copy", b=b, src=1 - b))
+
+    if family == "update-chain":
+        call(); call(); upd("right"); call(); upd("left"); call(); upd("scale"); call(); upd("transp"); call(); upd("set"); call(); call()
+    elif family == "rotations-only":
+        call()
+        for _ in range(4):
+            upd("right"); call(); upd("left"); call()
+    elif family == "symmetric-halfturn":      # an exactly symmetric stretch, its half-turn partner applied in place on either side
+        U = haar(rng) if k % 2 else np.eye(3)
+        st = np.sort(np.exp(rng.normal(0, 0.7, 3)))[::-1] * np.array([1.5, 1.0, 0.6])
+        init = [exact_sym(U, st)]
+        Q = halfturn(U, 1 + k % 2)
+        call(); upd("right", Q=Q); call(); upd("left", Q=Q); call(); upd("scale", c=-1.0); call(); upd("left", Q=Q); call()
+        upd("set", G=-np.eye(3)); call(); upd("set", G=exact_sym(U, -st)); call()
+    elif family == "two-objects":
+        call(0); call(1); upd("set", 1); call(0); call(1); upd("copy", 0); call(0); upd("right", 1); call(1); call(0); upd("copy", 1); call(1)
+    elif family == "views":
+        for via in ("same", "view", "copy", "ttview"):
+            call(via=via)
+        upd("set")
+        for via in ("ttview", "view", "same", "copy"):
+            call(via=via)
+        upd("left"); call(via="view"); upd("transp"); call(via="ttview")
+    else:   # random-walk, float32, fortran, strided
+        call()
+        for _ in range(7):
+            upd(("right", "left", "scale", "transp", "set")[int(rng.integers(5))]); call()
+    return dict(family=family, nb=nb, init=[np.array(a, dtype=float) for a in init], steps=steps,
+                dtype="float32" if family == "float32" else "float64",
+                layout={"fortran": "fortran", "strided": "strided"}.get(family, "C"))
+
+
+def gen_F_list(rng):
+    class _C:      # gen_F wants a check object only for its seed
+        seed = int(rng.integers(1 << 30))
+    return gen_F(_C, "quick")
+
+
+def gen_fse_sessions(chk, tier):
+    rng = np.random.default_rng(chk.seed + 31)
+    out = []
+    for rep in range(2 if tier == "quick" else 12):
+        for i, fam in enumerate(FSE_FAMILIES):
+            out.append(build_fse_session(rng, fam, rep * len(FSE_FAMILIES) + i))
+    return out
+
+
+def describe_fstep(st):
+    b = f"F{st['b']}"
+    if st["op"] == "strain":
+        arg = {"same": b, "view": b + "[:]", "copy": b + ".copy()", "ttview": b + ".T.T"}[st.get("via", "same")]
+        return f"finite_strain({arg})" + ("; axis[...] = 7.0" if st.get("scribble") else "")
+    return {"set": f"{b}[...] = G", "right": f"{b}[...] = {b} @ Q", "left": f"{b}[...] = Q @ {b}", "scale": f"{b} *= {st.get('c')!r}",
+            "transp": f"{b}[...] = {b}.T.copy()", "copy": f"{b}[...] = F{st.get('src')}"}[st["op"]]
+
+
+def make_fobjs(sess):
+    dt = np.float32 if sess["dtype"] == "float32" else np.float64
+    objs = []
+    for a in sess["init"]:
+        if sess["layout"] == "strided":
+            big = np.zeros((7, 7), dtype=dt)
+            o = big[1::2, 0:6:2]
+            o[...] = a
+        elif sess["layout"] == "fortran":
+            o = np.asfortranarray(a.astype(dt))
+        else:
+            o = np.array(a, dtype=dt)
+        objs.append(o)
+    return objs
+
+
+def exec_fse_session(dg, sess, rec=None):
+    objs = make_fobjs(sess)
+    events = []
+    kept = []
+
+    def run1(f, *a):
+        if rec is not None:
+            return call(rec, f, *a)
+        try:
+            return ("OK", f(*a), [])
+        except Exception as e:  # noqa: BLE001
+            return ("ERR", common.exc_code(e), [])
+
+    for i, st in enumerate(sess["steps"]):
+        o = objs[st["b"]]
+        op = st["op"]
+        if op == "set":
+            o[...] = st["G"]
+        elif op == "right":
+            o[...] = o @ np.asarray(st["Q"]).astype(o.dtype)
+        elif op == "left":
+            o[...] = np.asarray(st["Q"]).astype(o.dtype) @ o
+        elif op == "scale":
+            o *= o.dtype.type(st["c"])
+        elif op == "transp":
+            o[...] = o.T.copy()
+        elif op == "copy":
+            o[...] = objs[st["src"]]
+        else:
+            via = st.get("via", "same")
+            arg = {"same": lambda: o, "view": lambda: o[:], "copy": lambda: o.copy(), "ttview": lambda: o.T.T}[via]()
+            contents = np.array(arg, dtype=float)
+            r = run1(dg.finite_strain, arg)
+            res = (r[0], (float(r[1][0]), np.array(r[1][1], dtype=float, copy=True)) if r[0] == "OK" else r[1])
+            if st.get("scribble") and r[0] == "OK":
+                try:
+                    r[1][1][...] = 7.0
+                except ValueError:
+                    pass
+            elif r[0] == "OK":
+                kept.append((i, r[1][1], np.array(r[1][1], copy=True)))
+            modified = not np.array_equal(np.array(arg, dtype=float), contents, equal_nan=True)
+            f = run1(dg.finite_strain, np.array(np.asarray(arg), copy=True))
+            fresh = (f[0], (float(f[1][0]), np.array(f[1][1], dtype=float, copy=True)) if f[0] == "OK" else f[1])
+            events.append(dict(step=i, b=st["b"], via=via, contents=contents, res=res, calls=r[2], fresh=fresh, fresh_calls=f[2], modified=modified))
+    for i, obj, snap in kept:
+        if not np.array_equal(obj, snap, equal_nan=True):
+            for e in events:
+                if e["step"] == i:
+                    e["result_changed_later"] = (snap.tolist(), np.array(obj).tolist())
+    return events
+
+
+def fse_session_line(sess, memo=0):
+    codes, fl = [], []
+    for a in sess["init"]:
+        fl += flat(a)
+    for st in sess["steps"]:
+        op, b = st["op"], st["b"]
+        codes += [FSE_CODE[op], b]
+        if op == "set":
+            fl += flat(st["G"])
+        elif op in ("right", "left"):
+            fl += flat(st["Q"])
+        elif op == "scale":
+            fl += [float(st["c"])]
+        elif op == "copy":
+            codes += [st["src"]]
+    return common.model_line("fse_session", [memo, sess["nb"]] + codes, fl)
+
+
+def fsess_to_json(sess):
+    def enc(st):
+        d = dict(st)
+        for k in ("G", "Q"):
+            if k in d:
+                d[k] = [hx(x) for x in np.asarray(d[k], dtype=float).reshape(-1)]
+        if "c" in d:
+            d["c"] = hx(d["c"])
+        return d
+    return dict(call="fse_session", family=sess["family"], n_objects=sess["nb"], dtype=sess["dtype"], layout=sess["layout"],
+                call_sequence=[f"{i}: {describe_fstep(st)}" for i, st in enumerate(sess["steps"])],
+                init=[[hx(x) for x in a.reshape(-1)] for a in sess["init"]], steps=[enc(st) for st in sess["steps"]])
+
+
+def fsess_from_json(i):
+    u = common.unhx
+
+    def dec(st):
+        d = dict(st)
+        for k in ("G", "Q"):
+            if k in d:
+                d[k] = np.array([u(x) for x in d[k]]).reshape(3, 3)
+        if "c" in d:
+            d["c"] = u(d["c"])
+        return d
+    return dict(family=i.get("family", "replay"), nb=i["n_objects"], dtype=i["dtype"], layout=i["layout"],
+                init=[np.array([u(x) for x in a]).reshape(3, 3) for a in i["init"]], steps=[dec(st) for st in i["steps"]])
+
+
+def oracle_fse_session(dg, sess):
+    """the property read on a finite_strain call sequence: every call returns (largest principal stretch - 1, long axis) of the
+    CURRENT contents, the same as for a fresh copy, and modifies nothing; along the history of one object the value is unchanged by
+    in-place rotations on either side and by transposition, scales with `F *= c`, and the axis stays (F @ Q) / co-rotates (Q @ F)."""
+    fails, first = [], None
+    tol = 1e-4 if sess["dtype"] == "float32" else 1e-8
+    with np.errstate(all="ignore"):
+        events = {e["step"]: e for e in exec_fse_session(dg, sess)}
+    track = [None] * sess["nb"]      # per object: (value, axis, gap) expected from the previous call, transported through the updates
+    for i, st in enumerate(sess["steps"]):
+        b, op = st["b"], st["op"]
+        if op in ("set", "copy"):
+            track[b] = None
+        elif op == "right":
+            pass
+        elif op == "left" and track[b] is not None:
+            v, ax, gap = track[b]
+            track[b] = (v, None if ax is None else np.asarray(st["Q"]) @ ax, gap)
+        elif op == "scale" and track[b] is not None:
+            v, ax, gap = track[b]
+            track[b] = ((v + 1) * abs(st["c"]) - 1, ax, gap)
+        elif op == "transp" and track[b] is not None:
+            track[b] = (track[b][0], None, track[b][2])
+        if op != "strain":
+            continue
+        e = events[i]
+        where = f"step {i} [{describe_fstep(st)}]"
+        mine = []
+        if e["res"][0] != "OK":
+            mine.append(f"{where}: raised {e['res'][1]}")
+        else:
+            val, axv = e["res"][1]
+            U, sv, _ = np.linalg.svd(e["contents"])
+            t = tol * max(1.0, sv[0])
+            gap = (sv[0] ** 2 - sv[1] ** 2) / max(sv[0] ** 2, 1e-300)
+            if abs(val - (sv[0] - 1)) > t:
+                mine.append(f"{where}: value {val!r} is not the largest principal stretch of the current contents minus one ({sv[0] - 1!r})")
+            if gap > 1e-4 and not same_axis(axv, U[:, 0], 100 * tol / gap):
+                mine.append(f"{where}: axis {axv.tolist()} is not the long axis of the strain ellipsoid of the current contents")
+            f = e["fresh"]
+            if f[0] != "OK":
+                mine.append(f"{where}: the same call on a fresh copy raised {f[1]}")
+            elif abs(f[1][0] - val) > t or (gap > 1e-4 and not same_axis(axv, f[1][1], 100 * tol / gap)):
+                mine.append(f"{where}: ({val!r}, {axv.tolist()}) for the live object, ({f[1][0]!r}, {f[1][1].tolist()}) for a fresh copy of its contents")
+            if e["modified"]:
+                mine.append(f"{where}: the call modified its argument")
+            if e.get("result_changed_later"):
+                mine.append(f"{where}: the returned axis was changed by a later call / update: {e['result_changed_later']}")
+            if track[b] is not None:
+                v0, ax0, gap0 = track[b]
+                if abs(val - v0) > 10 * t * max(1.0, abs(v0)):
+                    mine.append(f"{where}: value {val!r}, but the in-place updates since the previous call on this object imply {v0!r}")
+                if ax0 is not None and min(gap, gap0) > 1e-4 and not same_axis(axv, ax0, 1000 * tol / min(gap, gap0)):
+                    mine.append(f"{where}: axis {axv.tolist()} does not follow the in-place rotations since the previous call (expected +-{ax0.tolist()})")
+            track[b] = (val, axv, gap)
+        if mine and first is None:
+            first = i
+        fails += mine
+    return fails, first
+
+
+def minimise_fse_session(dg, sess, first):
+    cur = dict(sess, steps=list(sess["steps"][:first + 1]))
+    if not oracle_fse_session(dg, cur)[0]:
+        cur = dict(sess, steps=list(sess["steps"]))
+    k = len(cur["steps"]) - 1
+    while k >= 0:
+        cand = dict(cur, steps=cur["steps"][:k] + cur["steps"][k + 1:])
+        if oracle_fse_session(dg, cand)[0]:
+            cur = cand
+        k -= 1
+    return cur
+
+
+# --------------------------------------------------------------------------
 # implementation calls (recorded)
 # --------------------------------------------------------------------------
 def call(rec, f, *a, **kw):
@@ -486,15 +915,31 @@ def flat(os):
 AXCODE = {"a": 0, "b": 1, "c": 2}
 
 
+GEN_TWIN = {"scatter": "gen_scatter", "pgr": "gen_pgr", "bingham": "gen_bingham", "coaxial": "gen_coaxial", "lcg": "gen_lcg",
+            "fse": "gen_fse", "fse_angle": "gen_fse_angle", "smallest_angle": "gen_angle"}
+
+
 class Run:
-    """collects model lines + expectations, runs them in one batch"""
+    """collects model lines + expectations, runs them in one batch.  Every case of 1, 2 or 3 grains (and every
+    finite-strain / angle case) is ALSO run through the extracted GENERATED definitions (gen/Gen_diag.v, entries gen_*):
+    the code regenerated from the source must reproduce the implementation on binary64 inputs too (NaN included)."""
 
     def __init__(self):
         self.lines, self.expect = [], []
+        self.n_gen = 0
 
     def add(self, entry, ints, floats, expected, meta, rtol=RTOL, scale=1.0):
         self.lines.append(common.model_line(entry, ints, floats))
         self.expect.append((expected, meta, rtol, scale))
+        twin = GEN_TWIN.get(entry)
+        if twin and (not ints or 1 <= ints[-1] <= 3):
+            exp2 = expected
+            if entry == "scatter" and expected[0] == "OK":     # the generated function returns the full 3x3 array
+                v = expected[1]
+                exp2 = ("OK", [v[0], 0.0, 0.0, v[1], v[2], 0.0, v[3], v[4], v[5]])
+            self.lines.append(common.model_line(twin, [0] if entry == "fse" else ints, floats))
+            self.expect.append((exp2, dict(meta, generated_code=twin), rtol, scale))
+            self.n_gen += 1
 
     def add_line(self, line, expected, meta, rtol=RTOL, scale=1.0):
         self.lines.append(line)
@@ -529,7 +974,7 @@ def correspondence(chk, tier):
     def bump(k, v):
         hist[k][str(v)] = hist[k].get(str(v), 0) + 1
 
-    def check_calls(calls, meta, expect_names):
+    def check_calls(calls, meta, expect_names, spec_tol=SPEC_TOL):
         nonlocal spec_checked
         names = [c[0] for c in calls]
         if names != expect_names:
@@ -537,7 +982,7 @@ def correspondence(chk, tier):
             return False
         for c in calls:
             spec_checked += 1
-            for f in spec_residuals(c):
+            for f in spec_residuals(c, spec_tol):
                 bad.append((meta, "oracle hypothesis: " + f))
         return True
 
@@ -628,6 +1073,8 @@ def correspondence(chk, tier):
                     run.add("coaxial", [AXCODE[ax], AXCODE[ax2], n], fl + list(cs[0][4]) + list(cs[1][4]), ("OK", [float(r[1])]), meta)
                 if e["modified"]:
                     bad.append((meta, "the call modified its argument"))
+                if e.get("result_changed_later"):
+                    bad.append((meta, f"the array returned by this call was changed by a LATER call / update: {e['result_changed_later']}"))
                 # purity: the same call on a fresh copy of the contents
                 f = e["fresh"]
                 if f[0] != "OK" or [c[0] for c in e["fresh_calls"]] != NAMES[op]:
@@ -646,32 +1093,32 @@ def correspondence(chk, tier):
                              dict(kind="session:" + fam, n=n, op="whole history", function="session", session=sess, call_sequence=seq,
                                   what="session trace"), scale=max(1.0, n))
         # invalid axis specifiers (match statement: anything but exactly "a" / "b" / "c" raises ValueError)
-        os = haar(np.random.default_rng(chk.seed + 3), 4)
+        os = haar(np.random.default_rng(chk.seed + 3), 3)
         BADAX = ("d", "x", "", "A", " a", "a ", "ab", None, 0)
         for fn, entry in ((dg.symmetry_pgr, "pgr"), (dg.bingham_average, "bingham")):
             for badax in BADAX:
                 r = call(rec, fn, os, axis=badax)
-                run.add(entry, [7, 4], flat(os) + [0.0] * 12, ("ERR", r[1]) if r[0] == "ERR" else ("OK", []),
-                        dict(function=fn.__name__, axis=badax, os=os, n=4, kind="random", op="invalid-axis"))
+                run.add(entry, [7, 3], flat(os) + [0.0] * 12, ("ERR", r[1]) if r[0] == "ERR" else ("OK", []),
+                        dict(function=fn.__name__, axis=badax, os=os, n=3, kind="random", op="invalid-axis"))
                 bump("function", fn.__name__ + ":invalid-axis")
                 chk.note_case((entry, badax), nontrivial=True)
         for badax in BADAX:
             for pos in (0, 1):
                 kw = dict(axis1=badax, axis2="a") if pos == 0 else dict(axis1="b", axis2=badax)
                 r = call(rec, dg.coaxial_index, os, **kw)
-                run.add("coaxial", [7, 0, 4] if pos == 0 else [1, 7, 4], flat(os) + [0.0] * 6,
+                run.add("coaxial", [7, 0, 3] if pos == 0 else [1, 7, 3], flat(os) + [0.0] * 6,
                         ("ERR", r[1]) if r[0] == "ERR" else ("OK", []),
-                        dict(function="coaxial_index", axis=repr(kw), os=os, n=4, kind="random", op="invalid-axis"))
+                        dict(function="coaxial_index", axis=repr(kw), os=os, n=3, kind="random", op="invalid-axis"))
                 bump("function", "coaxial_index:invalid-axis")
                 chk.note_case(("coaxial", badax, pos), nontrivial=True)
         # legal but unusual spellings of a valid axis (numpy string scalar)
         for k, a in enumerate(AXES):
             r = call(rec, dg.symmetry_pgr, os, axis=np.str_(a))
-            meta = dict(function="symmetry_pgr", axis=a, os=os, n=4, kind="random", op="axis as np.str_")
+            meta = dict(function="symmetry_pgr", axis=a, os=os, n=3, kind="random", op="axis as np.str_")
             bump("function", "symmetry_pgr:np.str_ axis")
             if r[0] == "OK" and check_calls(r[2], meta, ["eigvalsh"]):
-                run.add("scatter", [k, 4], flat(os), ("OK", lower6(r[2][0][1])), dict(meta, what="matrix passed to eigvalsh"), scale=4.0)
-                run.add("pgr", [k, 4], flat(os) + list(r[2][0][4]), ("OK", list(r[1])), meta)
+                run.add("scatter", [k, 3], flat(os), ("OK", lower6(r[2][0][1])), dict(meta, what="matrix passed to eigvalsh"), scale=3.0)
+                run.add("pgr", [k, 3], flat(os) + list(r[2][0][4]), ("OK", list(r[1])), meta)
             else:
                 bad.append((meta, f"implementation: {r[:2]}"))
             chk.note_case(("pgr-npstr", a), nontrivial=True)
@@ -726,6 +1173,105 @@ def correspondence(chk, tier):
                               sample=dict(function="finite_strain", kind=c["kind"], op=op, F=[float(x) for x in G.reshape(-1)],
                                           result=[float(r[1][0])] + [float(x) for x in r[1][1]] if r[0] == "OK" else r[1])
                               if len(chk.cov["samples"]) < 6 else None)
+        # every LAPACK driver finite_strain accepts (keyword and positional), and the texture diagnostics called
+        # WITHOUT axis arguments (defaults: "a"; axis1 "b", axis2 "a") / with positional axis arguments
+        hist.setdefault("argument_convention", {})
+        for c in gen_F(chk, tier)[:len(F_KINDS)]:
+            G = c["F"]
+            for drv in ("ev", "evd", "evr", "evx"):
+                for how in ("keyword", "positional"):
+                    r = call(rec, dg.finite_strain, G, driver=drv) if how == "keyword" else call(rec, dg.finite_strain, G, drv)
+                    meta = dict(function="finite_strain", kind=c["kind"], op=f"driver={drv!r} ({how})", F=G)
+                    bump("argument_convention", f"finite_strain driver={drv} {how}")
+                    if r[0] == "OK" and check_calls(r[2], meta, ["eigh"]):
+                        k = r[2][0]
+                        if k[3].get("driver") != drv:
+                            bad.append((meta, f"LAPACK was called with {k[3]} instead of the caller's driver"))
+                        run.add("lcg", [], flat(G), ("OK", lower6(k[1])), dict(meta, what="matrix passed to eigh"), scale=max(1.0, float(np.abs(k[1]).max())))
+                        run.add("fse", [], flat(G) + list(k[4][0]) + flat(k[4][1]), ("OK", [float(r[1][0])] + list(r[1][1])), meta)
+                        run.add_line(common.model_line("gen_fse", [1], flat(G) + list(k[4][0]) + flat(k[4][1])),
+                                     ("OK", [float(r[1][0])] + list(r[1][1])), dict(meta, generated_code="gen_fse (driver=)"))
+                    elif r[0] == "ERR":
+                        bad.append((meta, f"implementation raised {r[1]}"))
+                    chk.note_case(("fse-driver", drv, how, G.tobytes()), nontrivial=True)
+        drng2 = np.random.default_rng(chk.seed + 13)
+        for n in (1, 2, 3, 9):
+            dos = texture(drng2, "clustered", n)
+            fl = flat(dos)
+            for how, a_pgr, a_co in (("defaults", (), ()), ("positional", ("c",), ("c", "b")), ("positional", ("b",), ("a", "a"))):
+                k_pgr = AXCODE[a_pgr[0]] if a_pgr else 0
+                k_co = (AXCODE[a_co[0]], AXCODE[a_co[1]]) if a_co else (1, 0)
+                bump("argument_convention", f"texture diagnostics {how}")
+                r = call(rec, dg.symmetry_pgr, dos, *a_pgr)
+                meta = dict(function="symmetry_pgr", kind="clustered", n=n, op=f"axis arguments {how} {a_pgr}", axis=AXES[k_pgr], axis2=AXES[k_co[1]], os=dos)
+                if r[0] == "OK" and check_calls(r[2], meta, ["eigvalsh"]):
+                    run.add("scatter", [k_pgr, n], fl, ("OK", lower6(r[2][0][1])), dict(meta, what="matrix passed to eigvalsh"), scale=max(1.0, n))
+                    run.add("pgr", [k_pgr, n], fl + list(r[2][0][4]), ("OK", list(r[1])), meta)
+                    if n == 1 and how == "defaults":
+                        run.add_line(common.model_line("gen_default", [0], fl + list(r[2][0][4])), ("OK", list(r[1])), dict(meta, generated_code="gen_default 0"))
+                else:
+                    bad.append((meta, f"implementation: {r[:2]}"))
+                r = call(rec, dg.bingham_average, dos, *a_pgr)
+                meta = dict(meta, function="bingham_average")
+                if r[0] == "OK" and check_calls(r[2], meta, ["eigh"]):
+                    run.add("scatter", [k_pgr, n], fl, ("OK", lower6(r[2][0][1])), dict(meta, what="matrix passed to eigh"), scale=max(1.0, n))
+                    run.add("bingham", [k_pgr, n], fl + list(r[2][0][4][0]) + flat(r[2][0][4][1]), ("OK", list(r[1])), meta)
+                    if n == 1 and how == "defaults":
+                        run.add_line(common.model_line("gen_default", [1], fl + list(r[2][0][4][0]) + flat(r[2][0][4][1])), ("OK", list(r[1])),
+                                     dict(meta, generated_code="gen_default 1"))
+                else:
+                    bad.append((meta, f"implementation: {r[:2]}"))
+                r = call(rec, dg.coaxial_index, dos, *a_co)
+                meta = dict(meta, function="coaxial_index", op=f"axis arguments {how} {a_co}", axis=AXES[k_co[0]])
+                if r[0] == "OK" and check_calls(r[2], meta, ["eigvalsh", "eigvalsh"]):
+                    run.add("coaxial", [k_co[0], k_co[1], n], fl + list(r[2][0][4]) + list(r[2][1][4]), ("OK", [float(r[1])]), meta)
+                    if n == 1 and how == "defaults":
+                        run.add_line(common.model_line("gen_default", [2], fl + list(r[2][0][4]) + list(r[2][1][4])), ("OK", [float(r[1])]),
+                                     dict(meta, generated_code="gen_default 2"))
+                else:
+                    bad.append((meta, f"implementation: {r[:2]}"))
+                chk.note_case(("argconv", how, a_pgr, a_co, dos.tobytes()), nontrivial=True)
+        # presentations of the argument: integer dtype (exactly aligned grains / integer F), float32, read-only arrays
+        hist.setdefault("presentation", {})
+        for pres in ("int64", "float32", "read-only", "fortran-order"):
+            base = aligned_bases()
+            pos = np.stack([base[3], base[7], base[3]])
+            if pres == "int64":
+                arg, Farg = pos.astype(np.int64), np.array([[2, 0, 0], [1, 1, 0], [0, 0, 3]], dtype=np.int64)
+            elif pres == "float32":
+                arg, Farg = pos.astype(np.float32), np.array([[2, 0, 0], [1, 1, 0], [0, 0, 3]], dtype=np.float32)
+            elif pres == "read-only":
+                arg, Farg = texture(drng2, "clustered", 3), drng2.normal(0, 1, (3, 3))
+                arg.setflags(write=False); Farg.setflags(write=False)
+            else:
+                arg, Farg = np.asfortranarray(texture(drng2, "girdled", 3)), np.asfortranarray(drng2.normal(0, 1, (3, 3)))
+            fl = flat(arg)
+            ptol = 1e-5 if pres == "float32" else RTOL
+            for k, a in enumerate(AXES):
+                bump("presentation", pres)
+                meta = dict(function="symmetry_pgr", kind="presentation:" + pres, n=3, op="base", axis=a, axis2=AXES[(k + 1) % 3], os=np.array(arg, dtype=float))
+                r = call(rec, dg.symmetry_pgr, arg, axis=a)
+                if r[0] == "OK" and check_calls(r[2], meta, ["eigvalsh"]):
+                    run.add("scatter", [k, 3], fl, ("OK", lower6(r[2][0][1])), dict(meta, what="matrix passed to eigvalsh"), rtol=ptol, scale=3.0)
+                    run.add("pgr", [k, 3], fl + list(r[2][0][4]), ("OK", list(r[1])), meta)
+                else:
+                    bad.append((meta, f"implementation: {r[:2]}"))
+                r = call(rec, dg.bingham_average, arg, axis=a)
+                meta = dict(meta, function="bingham_average")
+                if r[0] == "OK" and check_calls(r[2], meta, ["eigh"]):
+                    run.add("bingham", [k, 3], fl + list(r[2][0][4][0]) + flat(r[2][0][4][1]), ("OK", list(r[1])), meta)
+                else:
+                    bad.append((meta, f"implementation: {r[:2]}"))
+                chk.note_case(("presentation", pres, a), nontrivial=True)
+            r = call(rec, dg.finite_strain, Farg)
+            meta = dict(function="finite_strain", kind="presentation:" + pres, op="base", F=np.array(Farg, dtype=float))
+            if r[0] == "OK" and check_calls(r[2], meta, ["eigh"], spec_tol=1e-4 if pres == "float32" else SPEC_TOL):
+                kk = r[2][0]
+                run.add("lcg", [], flat(Farg), ("OK", lower6(kk[1])), dict(meta, what="matrix passed to eigh"), rtol=ptol, scale=max(1.0, float(np.abs(kk[1]).max())))
+                run.add("fse", [], flat(Farg) + list(kk[4][0]) + flat(kk[4][1]), ("OK", [float(r[1][0])] + list(r[1][1])), meta, rtol=ptol)
+            else:
+                bad.append((meta, f"implementation: {r[:2]}"))
+            chk.note_case(("presentation-F", pres), nontrivial=True)
         # finite strain on ONE deformation-gradient object that is modified in place between the calls; the caller
         # scribbles on every returned axis (it owns the result)
         hist.setdefault("fse_sequence", {})
@@ -756,6 +1302,59 @@ def correspondence(chk, tier):
                 elif r[0] == "ERR":
                     bad.append((meta, f"implementation raised {r[1]}"))
                 chk.note_case(("fse-seq", op, cur.tobytes()), nontrivial=op != "first call")
+        # finite_strain call sequences on live objects (Model_diag_fse_session.v)
+        for k in ("fse_session_family", "fse_session_step", "fse_session_via", "fse_session_storage"):
+            hist.setdefault(k, {})
+        for sess in gen_fse_sessions(chk, tier):
+            fam = sess["family"]
+            bump("fse_session_family", fam); bump("fse_session_storage", sess["dtype"] + "/" + sess["layout"])
+            for st in sess["steps"]:
+                bump("fse_session_step", st["op"])
+            srt = 1e-5 if sess["dtype"] == "float32" else RTOL
+            events = exec_fse_session(dg, sess, rec)
+            seq = [f"{i}: {describe_fstep(st)}" for i, st in enumerate(sess["steps"])]
+            trace_ok, trace_expect, tscale = sess["dtype"] == "float64", [], 1.0
+            for e in events:
+                bump("fse_session_via", e["via"]); bump("function", "finite_strain:session")
+                nupd = sum(1 for st in sess["steps"][:e["step"]] if st["op"] != "strain")
+                meta = dict(function="finite_strain", kind="fse-session:" + fam, op=f"step {e['step']}", fsession=sess, step=e["step"],
+                            call_sequence=seq[:e["step"] + 1], F=e["contents"])
+                chk.note_case(("fse-session", fam, e["via"], nupd, e["contents"].tobytes()), nontrivial=nupd > 0,
+                              sample=dict(function="finite_strain in a call sequence", family=fam, step=e["step"], call_sequence=seq[:e["step"] + 1][-4:],
+                                          result=[e["res"][1][0]] + e["res"][1][1].tolist() if e["res"][0] == "OK" else e["res"][1])
+                              if (fam == "update-chain" and e["step"] == 5 and len(chk.cov["samples"]) < 7) else None)
+                r = e["res"]
+                if r[0] != "OK":
+                    bad.append((meta, f"implementation raised {r[1]}")); trace_ok = False
+                    continue
+                if not check_calls(e["calls"], meta, ["eigh"], spec_tol=1e-4 if sess["dtype"] == "float32" else SPEC_TOL):
+                    trace_ok = False
+                    continue
+                k = e["calls"][0]
+                sc = max(1.0, float(np.abs(k[1]).max()))
+                tscale = max(tscale, sc)
+                cur = e["contents"]
+                run.add("lcg", [], flat(cur), ("OK", lower6(k[1])), dict(meta, what="matrix passed to eigh vs F.F^T of the CURRENT contents"), rtol=srt, scale=sc)
+                run.add("fse", [], flat(cur) + list(k[4][0]) + flat(k[4][1]), ("OK", [r[1][0]] + list(r[1][1])), meta, rtol=srt)
+                trace_expect += lower6(k[1])
+                if e["modified"]:
+                    bad.append((meta, "finite_strain modified its argument"))
+                if e.get("result_changed_later"):
+                    bad.append((meta, f"the axis returned by this call was changed by a LATER call / update: {e['result_changed_later']}"))
+                f = e["fresh"]
+                if f[0] != "OK" or [c[0] for c in e["fresh_calls"]] != ["eigh"]:
+                    bad.append((meta, f"the same call on a fresh copy of the argument: {f[:1]}"))
+                    continue
+                k2 = e["fresh_calls"][0]
+                if not np.allclose(k[1], k2[1], rtol=0, atol=1e-12 * sc, equal_nan=True):
+                    bad.append((meta, f"matrix passed to eigh depends on the call history / the identity of the object: {lower6(k[1])} for the live object, "
+                                      f"{lower6(k2[1])} for a fresh copy of its contents"))
+                elif np.array_equal(k[1], k2[1]) and not (abs(r[1][0] - f[1][0]) <= 1e-12 * sc and same_axis(r[1][1], f[1][1], 1e-12)):
+                    bad.append((meta, f"result ({r[1][0]!r}, {r[1][1].tolist()}) for the live object, ({f[1][0]!r}, {f[1][1].tolist()}) for a fresh copy of its contents"))
+            if trace_ok and trace_expect:
+                run.add_line(fse_session_line(sess), ("OK", trace_expect),
+                             dict(function="finite_strain", kind="fse-session:" + fam, op="whole history", fsession=sess, call_sequence=seq,
+                                  what="fse session trace"), rtol=1e-9, scale=tscale)
         # closed-form angle helper
         rng = np.random.default_rng(chk.seed + 11)
         for s in [0.0, 0.5, 1.0, 1e-9, 1e6] + list(rng.uniform(0, 10, 25 if tier == "quick" else 300)):
@@ -764,6 +1363,15 @@ def correspondence(chk, tier):
                     dict(function="angle_fse_simpleshear", strain=float(s)))
             bump("function", "angle_fse_simpleshear")
             chk.note_case(("angle", float(s)), nontrivial=s != 0)
+        # smallest_angle: the compiled numba kernel vs the model (and the generated definitions)
+        hist.setdefault("angle_kind", {})
+        for c in gen_angles(chk, tier):
+            r = angle_call(dg, c)
+            fl = flat(c["v"]) + flat(c["a"]) + ([] if c["p"] is None else flat(c["p"]))
+            bump("angle_kind", c["kind"].split(":")[0]); bump("function", "smallest_angle")
+            run.add("smallest_angle", [], fl, ("OK", [r[1]]) if r[0] == "OK" else ("ERR", r[1]),
+                    dict(function="smallest_angle", kind=c["kind"], angle_case=c), rtol=angle_rtol(r[1]) if r[0] == "OK" else RTOL)
+            chk.note_case(("smallest_angle", c["kind"], tuple(fl)), nontrivial=r[0] == "OK" and 0 < r[1] < 90)
     cmp_bad = run.compare()
     for m, d in cmp_bad:
         if m.get("what") == "session trace":      # does the implementation behave like the refuted memoising variant?
@@ -772,9 +1380,17 @@ def correspondence(chk, tier):
             if mm[0] == "OK" and common.vec_close([x / max(1.0, m["n"]) for x in exp[1]], [x / max(1.0, m["n"]) for x in mm[1]], rtol=RTOL)[0]:
                 m["note"] = ("the matrices handed to LAPACK over this history are those of the model variant that remembers the scatter "
                              "matrix per (object, row) and never invalidates it (refuted: C13_session_memo_refuted)")
+    for m, d in cmp_bad:
+        if m.get("what") == "fse session trace":
+            exp = next(e for e, mm, _, _ in run.expect if mm is m)
+            mm = common.run_model([fse_session_line(m["fsession"], memo=1)], group=GROUP)[0]
+            if mm[0] == "OK" and common.vec_close(exp[1], mm[1], rtol=1e-9)[0]:
+                m["note"] = ("the matrices handed to LAPACK over this history are those of the model variant that remembers F.F^T per object "
+                             "and never invalidates it (refuted: C13_fse_session_memo_refuted)")
     bad += cmp_bad
     chk.cov["oracle_calls_residual_checked"] = spec_checked
     chk.cov["traces_validated_against_impl"] = len(run.lines)
+    chk.cov["cases_also_run_through_generated_code"] = run.n_gen
     return bad
 
 
@@ -918,6 +1534,8 @@ def oracle_session(dg, sess):
                 mine.append(f"{where}: {np.atleast_1d(val).tolist()} for the live object, {np.atleast_1d(f[1]).tolist()} for a fresh copy of its contents")
             if e["modified"]:
                 mine.append(f"{where}: the call modified its argument")
+            if e.get("result_changed_later"):
+                mine.append(f"{where}: the returned array was changed by a later call / update: {e['result_changed_later']}")
             # objectivity along the history of the object (same contents up to frame / order / signs)
             key = (b, op, e["axis"], e["axis2"], epoch[b])
             if key not in seen:
@@ -942,8 +1560,8 @@ def minimise_session(dg, sess, first):
     """smallest history (greedy) that still fails: cut after the first failing call, then drop steps one by one"""
     cur = dict(sess, steps=list(sess["steps"][:first + 1]))
     if not oracle_session(dg, cur)[0]:
-        return sess
-    k = len(cur["steps"]) - 2
+        cur = dict(sess, steps=list(sess["steps"]))      # the failure needs LATER steps (a returned array changed afterwards)
+    k = len(cur["steps"]) - 1
     while k >= 0:
         cand = dict(cur, steps=cur["steps"][:k] + cur["steps"][k + 1:])
         if oracle_session(dg, cand)[0]:
@@ -1044,6 +1662,28 @@ def search(chk, extra=()):
         fails = oracle_F(dg, ut, F, Q)
         if fails:
             add(dict(call="finite_strain", F=[hx(x) for x in F.reshape(-1)], Q=[hx(x) for x in Q.reshape(-1)]), fails)
+    fspool, fids = [], set()
+    for m in extra:
+        if "fsession" in m and id(m["fsession"]) not in fids:
+            fids.add(id(m["fsession"]))
+            fspool.append(m["fsession"])
+    fspool.sort(key=lambda q: len(q["steps"]))
+    frng = np.random.default_rng(chk.seed + 37)
+    for k, fam in enumerate(FSE_FAMILIES + FSE_FAMILIES):
+        fspool.append(build_fse_session(frng, fam, k))
+    for sess in fspool:
+        if len(found) >= 3:
+            break
+        fails, first = oracle_fse_session(dg, sess)
+        if fails:
+            small = minimise_fse_session(dg, sess, first)
+            add(fsess_to_json(small), oracle_fse_session(dg, small)[0] or fails)
+    apool = [m["angle_case"] for m in extra if "angle_case" in m] + gen_angles(chk, "quick")
+    for c in apool:
+        fails = oracle_angle(dg, c)
+        if fails:
+            add(dict(call="smallest_angle", vector=[hx(x) for x in c["v"]], axis=[hx(x) for x in c["a"]],
+                     plane=None if c["p"] is None else [hx(x) for x in c["p"]]), fails)
     for g in (0.5, 1.0, 2.0, 5.0):
         fails = oracle_shear(dg, ut, g)
         if fails:
@@ -1054,7 +1694,8 @@ def search(chk, extra=()):
 def run(chk):
     ok, br = proofs.prove(chk, FILES, PROP, groups=(GROUP,), gen_modules=(GROUP,))
     chk.cov["trusted_base"] = common.TRUSTED_COMMON[:1] + common.TRUSTED_COMMON[2:] + [
-        "hand-written Model_diag.v (scatter matrix, P/G/R, coaxial index, Bingham mean, finite strain, angle helper), tied to the source by this differential run (tie H)",
+        "hand-written Model_diag.v (scatter matrix, P/G/R, coaxial index, Bingham mean, finite strain, angle helper): tie T at 1, 2, 3 grains -- gen/Gen_diag.v is regenerated from stats._scatter_matrix, diagnostics.symmetry_pgr / coaxial_index / bingham_average / finite_strain and utils.angle_fse_simpleshear on every run (translator/specs_diag.py) and Proofs_diag_inst.v proves generated = model for every input array, every axis code and every array-level LAPACK function; for any number of grains the list model is tied by this differential run (tie H)",
+        "translator/specs_diag.py: NumPy float64 semantics of array elements (arithmetic never raises), np.zeros / np.sum (left to right) / np.sqrt / np.arctan / np.rad2deg / 3x3 @ / transpose / slicing of object arrays, scipy.linalg.norm of a 3-vector = sqrt(x.x); the axis specifier as a symbolic string compared with literals through == (code = big-endian UTF-8 value - 97); la.eigvalsh / la.eigh become calls of a function parameter (one positional 3x3 argument, no keyword except finite_strain's own driver= passed through, else the translator fails closed); signatures and default arguments are checked with inspect; two additive clauses in translator/emit_coq.py (parameter kind `oracle`)",
         "LAPACK (scipy.linalg.eigh / eigvalsh) is an oracle: theorems assume vals_spec / eig_spec (ascending eigenvalues, characteristic polynomial, S v = lambda v, orthonormal v); the harness checks the residuals of every recorded call (<= 1e-10 |S|) and that the matrix given to LAPACK equals the model's matrix",
         "np.sum / matmul accumulate in a different order than the model's left-to-right sums (compared to 1e-10)",
         "hand-written Model_diag_session.v (call histories on live objects modified in place); tied by executing the same histories in one Python process on the same ndarray objects: matrices handed to LAPACK vs the extracted `run false`, every result vs the one-call entries on the current contents and vs the same call on a fresh copy; NumPy's in-place operations (slice assignment, matmul out=, *=) are trusted to do what the model's fill / rotate / permute / flip say (the contents are read back and the model's own state evolution is compared to 1e-10); float32 objects: sums accumulated in float32, compared to 1e-5",
@@ -1072,7 +1713,15 @@ def run(chk):
                        "x n_grains in {1,2,3,7,20,100} + 1000 + 10000; every call in a history is one case (distinct = function, axes, via, number of in-place operations before the call, "
                        "contents bytes; non-trivial = more than one grain and at least one in-place modification of an object before the call); the caller overwrites returned arrays.  "
                        "finite_strain on one F object modified in place (F.Q, Q.F, *= 2) with repeated calls.  Invalid / unusual axis specifiers (upper case, whitespace, None, 0, np.str_) for all three "
-                       "functions incl. both coaxial arguments.  Degenerate stream (histogram `degenerate`): no grains, zero matrices, Gaussian rows, scaled rotations, rank-one grain (formulas only).")
+                       "functions incl. both coaxial arguments.  Degenerate stream (histogram `degenerate`): no grains, zero matrices, Gaussian rows, scaled rotations, rank-one grain (formulas only).  "
+                       "Round 5: deformation gradients of 12 kinds incl. EXACTLY symmetric F (positive definite / indefinite / negative definite / det < 0), diagonal F with signs, "
+                       "stretch x half-turn about a principal axis with that half-turn as the partner rotation, -I, rotations; every LAPACK driver (keyword / positional) and the texture "
+                       "diagnostics without / with positional axis arguments (`argument_convention`); int64 / float32 / read-only / Fortran-ordered arguments (`presentation`); "
+                       "smallest_angle (compiled kernel): +-basis vectors, zero vectors, scaled, near parallel / antiparallel / orthogonal, exactly parallel non-normalised, with unit and "
+                       "non-unit plane normals, axis / vector reversed (`angle_kind`); finite_strain call sequences on live 3x3 objects updated in place (`fse_session_*`: families "
+                       "update-chain, rotations-only, symmetric-halfturn, two-objects, views, random-walk, float32, fortran, strided; every call is one case, non-trivial = at least one in-place "
+                       "update before it); kept results must be unchanged at the end of a history.  Every case of <= 3 grains, every finite-strain case and every angle is ALSO evaluated by the "
+                       "extracted GENERATED definitions (`cases_also_run_through_generated_code`).")
     bad = []
     if br.drivers.get(GROUP, 1) is None:
         bad = correspondence(chk, chk.tier)
@@ -1087,7 +1736,7 @@ def run(chk):
         if sig not in sigs and len(shown) < 6:
             sigs.add(sig)
             shown.append((m, d))
-    dis = [{k: v for k, v in m.items() if k not in ("os", "F", "session")} | {"detail": d[:600]} for m, d in shown]
+    dis = [{k: v for k, v in m.items() if k not in ("os", "F", "session", "angle_case", "fsession")} | {"detail": d[:600]} for m, d in shown]
     if found:
         for payload, fails in found:
             chk.replay({"kind": "property-violation", "input": payload, "observed": fails,
@@ -1113,6 +1762,11 @@ def replay(d):
         fails = oracle_texture(dg, os, i["axis"], i["axis2"], np.random.default_rng(d.get("seed", 0) + 2))
     elif i["call"] == "session":
         fails = oracle_session(dg, sess_from_json(i))[0]
+    elif i["call"] == "fse_session":
+        fails = oracle_fse_session(dg, fsess_from_json(i))[0]
+    elif i["call"] == "smallest_angle":
+        fails = oracle_angle(dg, dict(v=np.array([u(x) for x in i["vector"]]), a=np.array([u(x) for x in i["axis"]]),
+                                      p=None if i["plane"] is None else np.array([u(x) for x in i["plane"]])))
     elif i["call"] == "finite_strain":
         fails = oracle_F(dg, ut, np.array([u(x) for x in i["F"]]).reshape(3, 3), np.array([u(x) for x in i["Q"]]).reshape(3, 3))
     else:
